@@ -255,6 +255,17 @@ Proof.
   pose proof must_check as Hall. rewrite forallb_forall in Hall. specialize (Hall _ Hp).
   apply andb_prop in Hall as [H1 _]. now rewrite Hv in H1.
 Qed.
+
+(** with rng = None: the computed footprint of every anchored component and of every global-by-design component avoids the OS *)
+Lemma anchored_os_check : forallb (fun p => negb (has OS (fget fp_full p))) (must_ids ++ global_ids) = true.
+Proof. vm_compute. reflexivity. Qed.
+Lemma anchored_os_free : forall nm p, In nm (must_be_explicit ++ global_by_design) -> id_of nm = Some p -> has OS (fget fp_full p) = false.
+Proof.
+  intros nm p Hin Hid. destruct roots_resolved as (_ & _ & Hm & Hg).
+  assert (Hp : In p (must_ids ++ global_ids)).
+  { apply in_or_app. apply in_app_or in Hin as [H|H]; [left; eapply ids_of_In; eauto | right; eapply ids_of_In; eauto]. }
+  pose proof anchored_os_check as Hall. rewrite forallb_forall in Hall. specialize (Hall _ Hp). now apply negb_true_iff in Hall.
+Qed.
 End FPP.
 
 (* ================================================================================================ *)
@@ -464,5 +475,81 @@ Proof.
   - constructor; [apply spawn_respects|]. constructor; [apply explicit_call_respects|]. constructor; [apply global_call_respects|]. constructor.
   - cbn. repeat split; try (intros [H|H]; [discriminate | destruct H as [H|H]; [discriminate | contradiction]]);
       try (intros [H|[]]; discriminate); intros l [<-|[]]; cbn; auto.
+Qed.
+
+(** *** programs of OS-free components run with rng = None *)
+(** with rng = None a footprint without the OS bit touches at most the two global streams *)
+Lemma locs_default_os_free m : FP.has FP.OS m = false -> incl (locs_of None m) [LPy; LNp].
+Proof.
+  intros H. unfold locs_of. rewrite H. cbn.
+  destruct (FP.has FP.PY m); destruct (FP.may_touch_np false m); cbn; intros l Hl; cbn in *; intuition.
+Qed.
+
+Definition global_only {G O} (c : call G O) : Prop := incl (reads c) [LPy; LNp] /\ incl (writes c) [LPy; LNp].
+
+Lemma global_only_scoped {G O} : forall (p : list (call G O)) A, incl [LPy; LNp] A -> Forall global_only p -> scoped A p.
+Proof.
+  induction p as [|c t IH]; intros A HA HF; cbn; [exact I|].
+  inversion HF as [|? ? [Hr Hw] Ht]; subst.
+  split; [eapply incl_tran; eauto|]. split; [intro H; apply Hr in H; destruct H as [H|[H|[]]]; discriminate|].
+  split; [intro H; apply Hw in H; destruct H as [H|[H|[]]]; discriminate|].
+  apply IH; [|exact Ht]. intros l Hl. apply in_or_app. left. now apply HA.
+Qed.
+
+(** the statically derived footprint of an OS-free component, with rng = None *)
+Definition os_free_default {G O} (c : call G O) : Prop :=
+  exists m, FP.has FP.OS m = false /\ incl (reads c) (locs_of None m) /\ incl (writes c) (locs_of None m).
+
+Theorem os_free_programs_reproducible : forall (G O : Type) (py_of_seed np_of_seed : Z -> G) (out_unit : O)
+    (p : list (call G O)) (s : Z) (w1 w2 : world G),
+  Forall respects p -> Forall os_free_default p ->
+  fst (run_prog (seed_call py_of_seed np_of_seed out_unit s :: p) w1) = fst (run_prog (seed_call py_of_seed np_of_seed out_unit s :: p) w2).
+Proof.
+  intros G O py np u p s w1 w2 HF HO.
+  apply (seeded_reproducible G O py np u p s w1 w2 HF).
+  apply global_only_scoped; [apply incl_refl|].
+  eapply Forall_impl; [|exact HO]. intros c (m & Hm & Hr & Hw).
+  pose proof (locs_default_os_free m Hm) as Hl. split; eapply incl_tran; eauto.
+Qed.
+
+(** spawn(): every stream seed lies in [0, 2^sbits - 1] and one is produced per requested stream *)
+Lemma randbelow_loop_range fuel n k s r s' : MT.randbelow_loop fuel n k s = Some (r, s') -> (r < n)%Z.
+Proof.
+  revert s. induction fuel as [|f IH]; intros s H; cbn in H; [discriminate|].
+  destruct (MT.getrandbits k s) as [x s1]. destruct (x <? n)%Z eqn:E; [|now apply IH in H].
+  inversion H; subst. now apply Z.ltb_lt.
+Qed.
+Lemma spawn_ints_spec : forall n sbits py l py', MT.spawn_ints n sbits py = Some (l, py') ->
+  length l = n /\ Forall (fun x => (x <= 2 ^ sbits - 1)%Z) l.
+Proof.
+  induction n as [|n IH]; intros sbits py l py' H; cbn in H.
+  - inversion H; subst. split; [reflexivity | constructor].
+  - unfold MT.randint, MT.randbelow in H.
+    destruct (MT.randbelow_loop 200 (2 ^ sbits - 1 - 0 + 1) (MT.bit_length (2 ^ sbits - 1 - 0 + 1)) py) as [[r py1]|] eqn:E; [|discriminate].
+    destruct (MT.spawn_ints n sbits py1) as [[l' py2]|] eqn:E2; [|discriminate].
+    inversion H; subst. destruct (IH _ _ _ _ E2) as [Hlen Hall]. split; [cbn; now rewrite Hlen|].
+    constructor; [|exact Hall]. apply randbelow_loop_range in E. lia.
+Qed.
+
+(** a call that is some anchored / global-by-design component run with rng = None, with any semantics inside its computed footprint *)
+Definition library_default_call {G O} (c : call G O) : Prop :=
+  exists nm p, In nm (FP.must_be_explicit ++ FP.global_by_design) /\ FP.id_of nm = Some p /\
+    incl (reads c) (locs_of None (FP.fget FP.fp_full p)) /\ incl (writes c) (locs_of None (FP.fget FP.fp_full p)).
+
+Theorem library_programs_reproducible : forall (G O : Type) (py_of_seed np_of_seed : Z -> G) (out_unit : O)
+    (p : list (call G O)) (s : Z) (w1 w2 : world G),
+  Forall respects p -> Forall library_default_call p ->
+  fst (run_prog (seed_call py_of_seed np_of_seed out_unit s :: p) w1) = fst (run_prog (seed_call py_of_seed np_of_seed out_unit s :: p) w2).
+Proof.
+  intros G O py np u p s w1 w2 HF HL. apply os_free_programs_reproducible; [exact HF|].
+  eapply Forall_impl; [|exact HL]. intros c (nm & pid & Hin & Hid & Hr & Hw).
+  exists (FP.fget FP.fp_full pid). split; [now apply (FPP.anchored_os_free nm)|]. split; assumption.
+Qed.
+
+Lemma example_library_call {G O} (g : G -> O * G) : library_default_call (global_call g).
+Proof.
+  exists "core.random.sampling.tiled_choice"%string. eexists. split; [apply in_or_app; left|].
+  - unfold FP.must_be_explicit. repeat (try (left; reflexivity); right).
+  - split; [vm_compute; reflexivity|]. split; vm_compute; intros l H; exact H.
 Qed.
 End WP.
